@@ -6,7 +6,7 @@ PROPS = {
     "C09": dict(
         model_files=DECRYPT_MODEL + ["Deflate", "GenPreludeD", "GenPreludeT", "GenPreludeDeflate", "GenDeflate", "P_GenDeflate", "XmlNameTables", "XmlTok", "P_XmlTok"],
         trusted_base=[KERNEL, GEN, HARNESS,
-                      "hand-written model XmlTok.v of the byte -> token -> tree step: encoding/xml (go1.24.0) Decoder.RawToken as etree v1.5.0 configures it (Strict, pass-through CharsetReader, no Entity map, no AutoClose) incl. isName with the two unicode range tables (XmlNameTables.v, transcribed from xml.go by tools/mkxmlnames.py; every table boundary is re-derived from the REAL decoder on each C09 run), entity expansion, CR / CRLF handling, the ]]> rule, UTF-8 and Char-range checks after expansion, <?xml?> version / encoding checks (procInst), directive scanning with quotes / nesting / comments; etree Element.readFrom (stack of open elements, end-tag check by (Space, Local), one CharData child per token - v1.5.0 does not merge -, attribute de-duplication unless PreserveDuplicateAttrs, Root() = first top-level element); token_view = what the Token() loop of xml.Unmarshal consumes (nesting check, stops at the end tag of the first element, NO CharsetReader). Nothing is outside_model. Tied to the real libraries by the xmltok stream (fixed cases, table boundaries, documents presented by the other streams, builder outputs, truncations / bit flips, grammar-based generator): token lists compared exactly, trees by node equality",
+                      "hand-written model XmlTok.v of the byte -> token -> tree step: encoding/xml (go1.24.0) Decoder.RawToken as etree v1.5.0 configures it (Strict, pass-through CharsetReader, no Entity map, no AutoClose) incl. isName with the two unicode range tables (XmlNameTables.v, transcribed from xml.go by tools/mkxmlnames.py; every table boundary is re-derived from the REAL decoder on each C09 run), entity expansion, CR / CRLF handling, the ]]> rule, UTF-8 and Char-range checks after expansion, <?xml?> version / encoding checks (procInst), directive scanning with quotes / nesting / comments; etree Element.readFrom (stack of open elements, end-tag check by (Space, Local), one CharData child per token - v1.5.0 does not merge -, attribute de-duplication unless PreserveDuplicateAttrs, Root() = first top-level element); token_view = what the Token() loop of Decoder.Decode consumes for a fresh decoder with the pass-through CharsetReader - gosaml2's xmlUnmarshalDocument since 6cc4dbc (nesting check, stops at the end tag of the first element); token_view_original = the same with NO CharsetReader (xml.Unmarshal, the pre-decoders before that repair); both compared with decoders configured that way. Nothing is outside_model. Tied to the real libraries by the xmltok stream (fixed cases, table boundaries, documents presented by the other streams, builder outputs, truncations / bit flips, grammar-based generator): token lists compared exactly, trees by node equality",
                       "hand-written model Decrypt.v (decrypt_symmetric_key, decrypt_bytes, decrypt_assertions_o with explicit OPanic at every slice / index / nil dereference / panic() of types/encrypted_key.go, types/encrypted_assertion.go and decode_response.go decryptAssertions) tied to the code by the DecryptBytes correspondence run (bytes / error label / panic compared on every case)",
                       "switch case lists of DecryptBytes / DecryptSymmetricKey re-extracted from the source by gen/ (decrypt_bytes_cases, key_transport_cases, key_digest_cases)",
                       "Escape.base64_decode as model of base64.StdEncoding.DecodeString (differentially tested against Go by the escape checks)",
